@@ -30,6 +30,12 @@ MOCKS = [
          joints=[[0], [2, 2, 2], [0], [3, 3]], parents=[0, 1, 0, 3], limited=[0, 1, 1, 0, 0, 1, 1],
          act=[dict(jnt=2, trn=0, ctrllim=0, forcelim=0, bias=1), dict(jnt=4, trn=4, ctrllim=1, forcelim=1, bias=0),
               dict(jnt=6, trn=0, ctrllim=1, forcelim=0, bias=2)]),
+    # row i of the actuator tables is MuJoCo actuator i (ctrl[i] is paired with it), whatever joints the rows drive
+    dict(name='hinge arm before a free body; actuators out of joint order, two on one joint declared APART',
+         joints=[[2, 3], [3], [0], [3]], parents=[0, 1, 0, 3], limited=[1, 0, 1, 0, 0],
+         act=[dict(jnt=2, trn=0, ctrllim=1, forcelim=0, bias=0), dict(jnt=0, trn=0, ctrllim=0, forcelim=1, bias=1),
+              dict(jnt=4, trn=0, ctrllim=1, forcelim=1, bias=2), dict(jnt=2, trn=0, ctrllim=0, forcelim=0, bias=1),
+              dict(jnt=1, trn=0, ctrllim=1, forcelim=0, bias=0)]),
 ]
 
 
@@ -70,6 +76,13 @@ def mock(spec, with_init_qpos=True):
       'body_pos': symarr('bpos', (nbody, 3)), 'body_quat': symarr('bquat', (nbody, 4)), 'body_ipos': symarr('bip', (nbody, 3)),
       'body_iquat': symarr('biq', (nbody, 4)), 'body_inertia': symarr('bin', (nbody, 3)), 'body_mass': symarr('bm', (nbody,)),
       'body_invweight0': symarr('biw', (nbody, 2)), 'body_parentid': np.array([0] + list(spec['parents'])),
+      # the per-body joint / dof address tables MuJoCo also carries (-1 / 0 for the world and jointless bodies)
+      'body_jntnum': np.array([0] + [len(b) for b in joints]), 'body_jntadr': np.array([-1] + list(np.cumsum([0] + [len(b) for b in joints])[:-1])),
+      'body_dofnum': np.array([0] + [sum(DW[t] for t in b) for b in joints]),
+      'body_dofadr': np.array([-1] + list(np.cumsum([0] + [sum(DW[t] for t in b) for b in joints])[:-1])),
+      'body_rootid': np.arange(nbody), 'body_weldid': np.arange(nbody),
+      'jnt_group': np.zeros(njnt, dtype=int), 'dof_bodyid': np.concatenate([[i + 1] * sum(DW[t] for t in b) for i, b in enumerate(joints)] or [[]]).astype(int),
+      'dof_parentid': np.full(nv, -1),
       'actuator_ctrlrange': symarr('acr', (nu, 2)), 'actuator_ctrllimited': np.array([a['ctrllim'] for a in act], dtype=int),
       'actuator_forcerange': symarr('afr', (nu, 2)), 'actuator_forcelimited': np.array([a['forcelim'] for a in act], dtype=int),
       'actuator_biasprm': symarr('abp', (nu, 3)), 'actuator_biastype': np.array([a['bias'] for a in act], dtype=int),
